@@ -1,20 +1,25 @@
 package store
 
-// C17 driver.  Generated SQL texts (several SQL statements per text, read-only heads with writing
+// C17 driver.  Every case is a HISTORY of operations on one live single-node Store (reads at every
+// level, writes, refused breaking-PRAGMA attempts, backups of every format that succeed or fail,
+// snapshots), each operation observed.  Generated SQL texts (several SQL statements per text, read-only heads with writing
 // tails, EXPLAIN, PRAGMA, ATTACH, temp tables, CTE writes, RETURNING, comments and semicolons inside
 // literals) are sent
 //   - directly to the node's database object: Query (read-only pool), Request, Execute (read-write connection)
 //   - through a real single-node Store: Query / Request at every consistency level, Execute.
-// Observed from a separate read-only connection: the logical contents (rows of t, extra tables,
-// user_version) and PRAGMA data_version before and after, and whether the raft log grew.
+// Observed after every operation, from a separate read-only connection: the logical contents (rows of
+// t, extra tables, user_version) and PRAGMA data_version, whether the raft log grew, and - through the
+// read-only pool itself - whether the pooled connection still has query_only set.
 // Every SQL statement's read-only flag (sqlite3_stmt_readonly, asked of the driver directly) and row
 // changes are measured by running it alone on a scratch database.
 
 import (
+	"bytes"
 	"context"
 	"database/sql"
 	"encoding/json"
 	"fmt"
+	"io"
 	"math/rand"
 	"os"
 	"path/filepath"
@@ -40,6 +45,9 @@ type c17Op struct {
 }
 
 type c17Text struct {
+	Raw     string   `json:"raw,omitempty"`     // verbatim text ($DB = the node's own database file); RawRO/RawOps declare what it is
+	RawRO   bool     `json:"raw_ro,omitempty"`
+	RawOps  []c17Op  `json:"raw_ops,omitempty"`
 	Subs    []c17Sub `json:"subs,omitempty"`
 	Bad     bool     `json:"bad,omitempty"`     // first statement does not prepare
 	Explain bool     `json:"explain,omitempty"` // Statement.SqlExplain
@@ -51,15 +59,33 @@ type c17Row struct {
 	V int64 `json:"v"`
 }
 
-type c17Input struct {
-	Endpoint string    `json:"endpoint"` // dbquery dbrequest dbexecute query request execute
-	Level    string    `json:"level,omitempty"`
-	Fresh    bool      `json:"fresh,omitempty"` // linearizable only: no strong read has gone through the log in this term yet (as after a leader change)
-	Init     []c17Row  `json:"init"`
-	Texts    []c17Text `json:"texts"`
+// one operation of a history on the live Store
+type c17Step struct {
+	Op     string     `json:"op"` // dbquery dbrequest dbexecute query request execute backup snapshot
+	Level  string     `json:"level,omitempty"`
+	Fresh  bool       `json:"fresh,omitempty"` // linearizable only: no strong read has gone through the log in this term yet (as after a leader change)
+	Texts  []c17Text  `json:"texts,omitempty"`
+	Backup *c17Backup `json:"backup,omitempty"`
+	Kind   string     `json:"kind,omitempty"` // generator category: probe, breaking-pragma, attach-self, ...
 }
 
-func (t c17Text) sql() string {
+type c17Backup struct {
+	Format   string `json:"format"` // binary sql delete
+	Vacuum   bool   `json:"vacuum,omitempty"`
+	Compress bool   `json:"compress,omitempty"`
+	Dest     string `json:"dest"` // file (fresh empty file), prefilled (file with content), buffer, failwriter (errors after 100 bytes), deadwriter (errors at once)
+}
+
+// a case: contents to start from and a history of operations; every operation is observed
+type c17Input struct {
+	Init  []c17Row  `json:"init"`
+	Steps []c17Step `json:"steps"`
+}
+
+func (t c17Text) sql(dbPath string) string {
+	if t.Raw != "" {
+		return strings.ReplaceAll(t.Raw, "$DB", dbPath)
+	}
 	if t.Bad {
 		return "SELEC 1 FROM t; DELETE FROM t"
 	}
@@ -282,24 +308,110 @@ func c17CoqOps(ops []c17Op) string {
 	return coqList(it)
 }
 
+type c17FailWriter struct{ n, limit int }
+
+func (f *c17FailWriter) Write(b []byte) (int, error) {
+	f.n += len(b)
+	if f.n > f.limit {
+		return 0, fmt.Errorf("c17: destination refuses more data")
+	}
+	return len(b), nil
+}
+
+// PRAGMA query_only of the read-only pool, read through the pool (database/sql hands out the
+// connection that was released last, i.e. the one the preceding operation used)
+func (e *c17Env) poolQueryOnly() (allSet bool, detail string) {
+	allSet = true
+	for i := 0; i < 3; i++ {
+		rows, err := e.s.db.Query(&proto.Request{Statements: []*proto.Statement{{Sql: "PRAGMA query_only"}}}, false)
+		if err != nil || len(rows) != 1 || rows[0].Error != "" || len(rows[0].Values) != 1 {
+			return false, fmt.Sprintf("cannot read PRAGMA query_only through the pool: %v %v", err, rows)
+		}
+		if v := rows[0].Values[0].Parameters[0].GetI(); v != 1 {
+			allSet = false
+			detail = fmt.Sprintf("PRAGMA query_only = %d on a pooled read-only connection", v)
+		}
+	}
+	return allSet, detail
+}
+
+// after a detected leak: put query_only back on the pooled connections so that the next case starts clean
+func (e *c17Env) restorePool() {
+	for i := 0; i < 4; i++ {
+		e.s.db.Query(&proto.Request{Statements: []*proto.Statement{{Sql: "PRAGMA query_only=1"}}}, false)
+	}
+}
+
+type c17StepObs struct {
+	before, after []c17Row
+	dv0, dv1      int64
+	appended      bool
+	nRW           int64
+	kinds         []string
+	upg           bool
+	refused       bool
+	callErr       error
+	poolOK        bool
+	poolDetail    string
+}
+
+func (e *c17Env) runBackup(b *c17Backup) error {
+	br := &proto.BackupRequest{Vacuum: b.Vacuum, Compress: b.Compress}
+	switch b.Format {
+	case "binary":
+		br.Format = proto.BackupRequest_BACKUP_REQUEST_FORMAT_BINARY
+	case "sql":
+		br.Format = proto.BackupRequest_BACKUP_REQUEST_FORMAT_SQL
+	default:
+		br.Format = proto.BackupRequest_BACKUP_REQUEST_FORMAT_DELETE
+	}
+	var dst io.Writer
+	switch b.Dest {
+	case "file", "prefilled":
+		f, err := os.CreateTemp(e.dir, "c17-backup-")
+		if err != nil {
+			return err
+		}
+		defer os.Remove(f.Name())
+		defer f.Close()
+		if b.Dest == "prefilled" {
+			f.WriteString("this file is not empty, and is not a SQLite database")
+			f.Sync()
+		}
+		dst = f
+	case "failwriter":
+		dst = &c17FailWriter{limit: 100}
+	case "deadwriter":
+		dst = &c17FailWriter{}
+	default:
+		dst = &bytes.Buffer{}
+	}
+	return e.s.Backup(context.Background(), br, dst)
+}
+
 func c17Run(w *vWriter, e *c17Env, in c17Input) {
 	key := vJSON(in)
 	ctx := context.Background()
-	// measure every statement; the declared flags/changes are the generator's, the measurement is SQLite's
+	// measure every generated statement alone; the declared flags/changes are the generator's, the measurement is SQLite's
 	ros := map[string]bool{}
-	for _, t := range in.Texts {
-		for _, sub := range t.Subs {
-			ro, after, err := e.measure(in.Init, sub)
-			if err != nil {
-				w.Emit(VCase{Input: in, Key: key, Inconcl: fmt.Sprintf("statement %q does not run alone: %v", sub.SQL, err)})
-				return
+	for _, st := range in.Steps {
+		for _, t := range st.Texts {
+			for _, sub := range t.Subs {
+				if _, done := ros[sub.SQL]; done {
+					continue
+				}
+				ro, after, err := e.measure(in.Init, sub)
+				if err != nil {
+					w.Emit(VCase{Input: in, Key: key, Inconcl: fmt.Sprintf("statement %q does not run alone: %v", sub.SQL, err)})
+					return
+				}
+				if want := c17Apply(in.Init, sub.Ops); !c17Eq(after, want) || ro != sub.RO {
+					w.Emit(VCase{Input: in, Key: key, OracleFail: fmt.Sprintf("statement %q: declared ro=%v ops=%v, SQLite says ro=%v contents %v (from %v)", sub.SQL, sub.RO, sub.Ops, ro, after, in.Init),
+						Sig: "C17:generator-declaration-wrong"})
+					return
+				}
+				ros[sub.SQL] = ro
 			}
-			if want := c17Apply(in.Init, sub.Ops); !c17Eq(after, want) || ro != sub.RO {
-				w.Emit(VCase{Input: in, Key: key, OracleFail: fmt.Sprintf("statement %q: declared ro=%v ops=%v, SQLite says ro=%v contents %v (from %v)", sub.SQL, sub.RO, sub.Ops, ro, after, in.Init),
-					Sig: "C17:generator-declaration-wrong"})
-				return
-			}
-			ros[sub.SQL] = ro
 		}
 	}
 	// reset the node's database (directly on its read-write connection) and connection-local state
@@ -311,191 +423,303 @@ func c17Run(w *vWriter, e *c17Env, in c17Input) {
 		w.Emit(VCase{Input: in, Key: key, Inconcl: "reset: " + err.Error()})
 		return
 	}
-	before := c17Dump(e.obs)
-	if !c17Eq(before, c17Apply(nil, func() []c17Op {
-		var o []c17Op
-		for _, r := range in.Init {
-			o = append(o, c17Op{K: r.K, V: r.V})
-		}
-		return o
-	}())) {
-		w.Emit(VCase{Input: in, Key: key, Inconcl: fmt.Sprintf("reset left %v, want %v", before, in.Init)})
+	start := c17Dump(e.obs)
+	var initOps []c17Op
+	for _, r := range in.Init {
+		initOps = append(initOps, c17Op{K: r.K, V: r.V})
+	}
+	if !c17Eq(start, c17Apply(nil, initOps)) {
+		w.Emit(VCase{Input: in, Key: key, Inconcl: fmt.Sprintf("reset left %v, want %v", start, in.Init)})
 		return
 	}
-	if in.Level == "linearizable" && in.Fresh {
-		e.s.strongReadTerm.Store(0) // makes waitForLinearizableRead ask for a strong read, as it does in a new term
-	}
-	dv0 := e.dataVersion()
-	idx0 := e.s.raft.LastIndex()
+	// leaks found by earlier cases were repaired when they were reported: a pool that is unprotected now never was protected
+	startOK, startDetail := e.poolQueryOnly()
 
-	req := &proto.Request{}
-	for _, t := range in.Texts {
-		req.Statements = append(req.Statements, &proto.Statement{Sql: t.sql(), SqlExplain: t.Explain})
+	c := VCase{Input: in, Key: key}
+	tags := map[string]bool{}
+	var stepsCoq []string
+	type verdict struct{ fail, sig string }
+	var verdicts []verdict
+	failingBefore := false // a failing/refused operation happened earlier in this history
+	poolWasOK := startOK
+	if !startOK {
+		verdicts = append(verdicts, verdict{"the read-only pool is unprotected before any operation of the history: " + startDetail, "C17:ro-pool-query-only-lost:before-any-operation"})
 	}
-	var (
-		kinds   []string // per non-empty text: Q, E, Err, QErr
-		callErr error
-		nRW     = int64(-1)
-		upg     bool
-	)
-	eqKinds := func(rs []*proto.ExecuteQueryResponse) {
-		for _, r := range rs {
-			switch x := r.GetResult().(type) {
-			case *proto.ExecuteQueryResponse_E:
-				kinds = append(kinds, "E")
-			case *proto.ExecuteQueryResponse_Q:
-				if x.Q.GetError() != "" {
-					kinds = append(kinds, "QErr")
-				} else {
-					kinds = append(kinds, "Q")
+	cur := start
+	for si, st := range in.Steps {
+		o := c17StepObs{before: cur, nRW: -1}
+		if st.Level == "linearizable" && st.Fresh {
+			e.s.strongReadTerm.Store(0) // makes waitForLinearizableRead ask for a strong read, as it does in a new term
+		}
+		o.dv0 = e.dataVersion()
+		idx0 := e.s.raft.LastIndex()
+		req := &proto.Request{}
+		for _, t := range st.Texts {
+			req.Statements = append(req.Statements, &proto.Statement{Sql: t.sql(e.s.dbPath), SqlExplain: t.Explain})
+		}
+		eqKinds := func(rs []*proto.ExecuteQueryResponse) {
+			for _, r := range rs {
+				switch x := r.GetResult().(type) {
+				case *proto.ExecuteQueryResponse_E:
+					o.kinds = append(o.kinds, "E")
+				case *proto.ExecuteQueryResponse_Q:
+					if x.Q.GetError() != "" {
+						o.kinds = append(o.kinds, "QErr")
+					} else {
+						o.kinds = append(o.kinds, "Q")
+					}
+				default:
+					o.kinds = append(o.kinds, "Err")
 				}
+			}
+		}
+		switch st.Op {
+		case "dbquery":
+			_, o.callErr = e.s.db.Query(req, false)
+		case "dbrequest":
+			var rs []*proto.ExecuteQueryResponse
+			rs, o.callErr = e.s.db.Request(req, false)
+			eqKinds(rs)
+		case "dbexecute":
+			_, o.callErr = e.s.db.Execute(req, false)
+		case "query":
+			qr := &proto.QueryRequest{Request: req, Level: c17Level(st.Level)}
+			var lv proto.ConsistencyLevel
+			_, lv, _, o.callErr = e.s.Query(ctx, qr)
+			o.upg = st.Level == "linearizable" && lv == proto.ConsistencyLevel_STRONG
+		case "request":
+			eqr := &proto.ExecuteQueryRequest{Request: req, Level: c17Level(st.Level)}
+			var rs []*proto.ExecuteQueryResponse
+			var n uint64
+			rs, n, _, o.callErr = e.s.Request(ctx, eqr)
+			if o.callErr == nil {
+				o.nRW = int64(n)
+			}
+			eqKinds(rs)
+			o.upg = st.Level == "linearizable" && eqr.Level == proto.ConsistencyLevel_STRONG
+		case "execute":
+			_, _, o.callErr = e.s.Execute(ctx, &proto.ExecuteRequest{Request: req})
+		case "backup":
+			o.callErr = e.runBackup(st.Backup)
+		case "snapshot":
+			o.callErr = e.s.Snapshot(0)
+		}
+		o.after = c17Dump(e.obs)
+		o.dv1 = e.dataVersion()
+		o.appended = e.s.raft.LastIndex() > idx0
+		o.poolOK, o.poolDetail = e.poolQueryOnly()
+		cur = o.after
+		isReq := st.Op != "backup" && st.Op != "snapshot"
+		if isReq && o.callErr != nil {
+			if strings.Contains(o.callErr.Error(), "disallowed pragma") {
+				o.refused = true
+			} else {
+				w.Emit(VCase{Input: in, Key: key, Inconcl: fmt.Sprintf("step %d (%s %s): call failed: %v", si, st.Op, st.Level, o.callErr)})
+				return
+			}
+		}
+
+		// ---- model step ----
+		var texts []string
+		for _, t := range st.Texts {
+			switch {
+			case t.Raw != "":
+				texts = append(texts, fmt.Sprintf("TSubs false [{| sb_ro := %s; sb_eff := %s |}]", coqBool(t.RawRO), c17CoqOps(t.RawOps)))
+			case t.Bad:
+				texts = append(texts, "TBad")
+			case len(t.Subs) == 0:
+				texts = append(texts, "TEmpty")
 			default:
-				kinds = append(kinds, "Err")
+				subs := make([]string, len(t.Subs))
+				for i, s := range t.Subs {
+					subs[i] = fmt.Sprintf("{| sb_ro := %s; sb_eff := %s |}", coqBool(ros[s.SQL]), c17CoqOps(s.Ops))
+				}
+				texts = append(texts, fmt.Sprintf("TSubs %s %s", coqBool(t.Explain), coqList(subs)))
 			}
 		}
-	}
-	switch in.Endpoint {
-	case "dbquery":
-		_, callErr = e.s.db.Query(req, false)
-	case "dbrequest":
-		var rs []*proto.ExecuteQueryResponse
-		rs, callErr = e.s.db.Request(req, false)
-		eqKinds(rs)
-	case "dbexecute":
-		_, callErr = e.s.db.Execute(req, false)
-	case "query":
-		qr := &proto.QueryRequest{Request: req, Level: c17Level(in.Level)}
-		var lv proto.ConsistencyLevel
-		_, lv, _, callErr = e.s.Query(ctx, qr)
-		upg = in.Level == "linearizable" && lv == proto.ConsistencyLevel_STRONG
-	case "request":
-		eqr := &proto.ExecuteQueryRequest{Request: req, Level: c17Level(in.Level)}
-		var rs []*proto.ExecuteQueryResponse
-		var n uint64
-		rs, n, _, callErr = e.s.Request(ctx, eqr)
-		nRW = int64(n)
-		eqKinds(rs)
-		upg = in.Level == "linearizable" && eqr.Level == proto.ConsistencyLevel_STRONG
-	case "execute":
-		_, _, callErr = e.s.Execute(ctx, &proto.ExecuteRequest{Request: req})
-	}
-	if callErr != nil {
-		w.Emit(VCase{Input: in, Key: key, Inconcl: "call failed: " + callErr.Error()})
-		return
-	}
-	after := c17Dump(e.obs)
-	dv1 := e.dataVersion()
-	appended := e.s.raft.LastIndex() > idx0
-
-	// ---- model case ----
-	var texts []string
-	for _, t := range in.Texts {
+		lv := map[string]string{"none": "LvNone", "weak": "LvWeak", "strong": "LvStrong", "auto": "LvAuto"}[st.Level]
+		if st.Level == "linearizable" {
+			lv = "(LvLinearizable " + coqBool(o.upg) + ")"
+		}
+		var op string
 		switch {
-		case t.Bad:
-			texts = append(texts, "TBad")
-		case len(t.Subs) == 0:
-			texts = append(texts, "TEmpty")
+		case o.refused:
+			op = "HRefused"
+		case st.Op == "dbquery":
+			op = "HDbQuery " + coqList(texts)
+		case st.Op == "dbrequest":
+			op = "HDbRequest " + coqList(texts)
+		case st.Op == "dbexecute":
+			op = "HDbExecute " + coqList(texts)
+		case st.Op == "query":
+			op = "HQuery " + lv + " " + coqList(texts)
+		case st.Op == "request":
+			op = "HRequest " + lv + " " + coqList(texts)
+		case st.Op == "execute":
+			op = "HExecute " + coqList(texts)
+		case st.Op == "backup":
+			op = "HBackup " + map[string]string{"binary": "BfBinary", "sql": "BfSQL", "delete": "BfDelete"}[st.Backup.Format] + " " + coqBool(st.Backup.Vacuum)
 		default:
-			subs := make([]string, len(t.Subs))
-			for i, s := range t.Subs {
-				subs[i] = fmt.Sprintf("{| sb_ro := %s; sb_eff := %s |}", coqBool(ros[s.SQL]), c17CoqOps(s.Ops))
-			}
-			texts = append(texts, fmt.Sprintf("TSubs %s %s", coqBool(t.Explain), coqList(subs)))
+			op = "HSnapshot"
 		}
-	}
-	lv := map[string]string{"none": "LvNone", "weak": "LvWeak", "strong": "LvStrong", "auto": "LvAuto"}[in.Level]
-	if in.Level == "linearizable" {
-		lv = "(LvLinearizable " + coqBool(upg) + ")"
-	}
-	ep := map[string]string{"dbquery": "DbQuery", "dbrequest": "DbRequest", "dbexecute": "DbExecute", "execute": "StExecute"}[in.Endpoint]
-	if in.Endpoint == "query" {
-		ep = "(StQuery " + lv + ")"
-	} else if in.Endpoint == "request" {
-		ep = "(StRequest " + lv + ")"
-	}
-	coq := fmt.Sprintf("({| k_ep := %s; k_req := %s; k_init := %s; k_final := %s; k_appended := %s; k_nrw := %s |})%%N",
-		ep, coqList(texts), c17CoqTable(before), c17CoqTable(after), coqBool(appended), coqOpt(nRW >= 0, fmt.Sprint(nRW)))
+		stepsCoq = append(stepsCoq, fmt.Sprintf("(%s, {| ob_final := %s; ob_appended := %s; ob_nrw := %s; ob_pool_ok := %s |})",
+			op, c17CoqTable(o.after), coqBool(o.appended), coqOpt(o.nRW >= 0, fmt.Sprint(o.nRW)), coqBool(o.poolOK)))
 
-	// ---- the property ----
-	c := VCase{Input: in, Key: key, Coq: coq}
-	changed := !c17Eq(before, after) || dv0 != dv1
-	roHeadRwTail, writeNotFirst, special := false, false, false
-	for _, t := range in.Texts {
-		for i, s := range t.Subs {
-			if !s.RO && len(s.Ops) > 0 && i > 0 {
-				writeNotFirst = true
-				if t.Subs[0].RO {
-					roHeadRwTail = true
+		// ---- the property, on this step ----
+		what := fmt.Sprintf("step %d (%s %s %s)", si, st.Op, st.Level, st.Kind)
+		changed := !c17Eq(o.before, o.after) || o.dv0 != o.dv1
+		roHeadRwTail, writeNotFirst, special := false, false, false
+		for _, t := range st.Texts {
+			for i, s := range t.Subs {
+				if !s.RO && len(s.Ops) > 0 && i > 0 {
+					writeNotFirst = true
+					if t.Subs[0].RO {
+						roHeadRwTail = true
+					}
+				}
+				up := strings.ToUpper(s.SQL)
+				if strings.Contains(up, "ATTACH") || strings.Contains(up, "TEMP") || strings.Contains(up, "PRAGMA") {
+					special = true
 				}
 			}
-			up := strings.ToUpper(s.SQL)
-			if strings.Contains(up, "ATTACH") || strings.Contains(up, "TEMP") || strings.Contains(up, "PRAGMA") {
+			if t.Raw != "" {
 				special = true
 			}
 		}
-	}
-	c.Nontrivial = writeNotFirst || special
-	c.Tags = []string{"endpoint=" + in.Endpoint}
-	if in.Level != "" {
-		c.Tags = append(c.Tags, "level="+in.Level)
-	}
-	if upg {
-		c.Tags = append(c.Tags, "linearizable-upgraded-to-strong")
-	}
-	if roHeadRwTail {
-		c.Tags = append(c.Tags, "ro-head-rw-tail")
-	}
-	if special {
-		c.Tags = append(c.Tags, "attach-temp-pragma")
-	}
-	if appended {
-		c.Tags = append(c.Tags, "via-log")
-	}
-	switch in.Endpoint {
-	case "dbquery", "query":
-		if changed {
-			c.OracleFail = fmt.Sprintf("query endpoint (%s level %q) changed the database: %v -> %v (data_version %d -> %d); request %v", in.Endpoint, in.Level, before, after, dv0, dv1, vJSON(req.Statements))
-			c.Sig = "C17:query-endpoint-wrote"
+		if writeNotFirst || special || failingBefore {
+			c.Nontrivial = true
 		}
-	case "dbrequest", "request":
-		// texts answered with a Q result were treated as read-only; only the others may change anything
-		var nonEmpty []c17Text
-		for _, t := range in.Texts {
-			if t.Bad || len(t.Subs) > 0 {
-				nonEmpty = append(nonEmpty, t)
+		if failingBefore && (st.Op == "query" || st.Op == "dbquery" || st.Op == "request") {
+			tags["read-after-failed-operation"] = true
+		}
+		tags["op="+st.Op] = true
+		if st.Level != "" {
+			tags["level="+st.Level] = true
+		}
+		if st.Kind != "" {
+			tags["kind="+st.Kind] = true
+		}
+		if o.upg {
+			tags["linearizable-upgraded-to-strong"] = true
+		}
+		if roHeadRwTail {
+			tags["ro-head-rw-tail"] = true
+		}
+		if o.appended {
+			tags["via-log"] = true
+		}
+		if o.refused {
+			tags["refused-by-pragma-guard"] = true
+		}
+		if st.Op == "backup" {
+			res := "ok"
+			if o.callErr != nil {
+				res = "failed"
+			}
+			tags[fmt.Sprintf("backup-%s-vacuum=%v-%s", st.Backup.Format, st.Backup.Vacuum, res)] = true
+		}
+		if o.refused || ((st.Op == "backup" || st.Op == "snapshot") && o.callErr != nil) {
+			failingBefore = true
+		}
+		for _, t := range st.Texts {
+			if t.Bad {
+				failingBefore = true
 			}
 		}
-		if len(kinds) == len(nonEmpty) {
-			want := before
-			for i, t := range nonEmpty {
-				if kinds[i] == "E" {
-					for _, s := range t.Subs {
-						want = c17Apply(want, s.Ops)
+		v := verdict{}
+		switch st.Op {
+		case "dbquery", "query":
+			if changed {
+				v = verdict{fmt.Sprintf("%s: query endpoint changed the database: %v -> %v (data_version %d -> %d); texts %v", what, o.before, o.after, o.dv0, o.dv1, vJSON(req.Statements)), "C17:query-endpoint-wrote"}
+			}
+		case "dbrequest", "request":
+			// texts answered with a Q result were treated as read-only; only the others may change anything
+			var nonEmpty []c17Text
+			for _, t := range st.Texts {
+				if t.Bad || len(t.Subs) > 0 || t.Raw != "" {
+					nonEmpty = append(nonEmpty, t)
+				}
+			}
+			if o.refused {
+				if changed {
+					v = verdict{fmt.Sprintf("%s: refused request changed the database: %v -> %v", what, o.before, o.after), "C17:refused-request-wrote"}
+				}
+			} else if len(o.kinds) == len(nonEmpty) {
+				want := o.before
+				allRO := true
+				for i, t := range nonEmpty {
+					if o.kinds[i] == "E" {
+						allRO = false
+						for _, s := range t.Subs {
+							want = c17Apply(want, s.Ops)
+						}
 					}
 				}
-			}
-			allRO := true
-			for _, k := range kinds {
-				if k == "E" {
-					allRO = false
+				if !c17Eq(o.after, want) || (allRO && o.dv0 != o.dv1) {
+					sig := "C17:unified-ro-wrote"
+					if roHeadRwTail {
+						sig = "C17:unified-ro-head-rw-tail"
+					}
+					v = verdict{fmt.Sprintf("%s: statements answered as read-only (result kinds %v) changed the database: %v -> %v, expected %v; texts %v",
+						what, o.kinds, o.before, o.after, want, vJSON(req.Statements)), sig}
 				}
 			}
-			if !c17Eq(after, want) || (allRO && dv0 != dv1) {
-				c.OracleFail = fmt.Sprintf("unified request (%s level %q): statements answered as read-only (result kinds %v) changed the database: %v -> %v, expected %v; texts %v",
-					in.Endpoint, in.Level, kinds, before, after, want, vJSON(req.Statements))
-				c.Sig = "C17:unified-ro-wrote"
-				if roHeadRwTail {
-					c.Sig = "C17:unified-ro-head-rw-tail"
-				}
+		case "execute", "dbexecute":
+			if o.refused && changed {
+				v = verdict{fmt.Sprintf("%s: refused request changed the database: %v -> %v", what, o.before, o.after), "C17:refused-request-wrote"}
+			}
+		case "backup", "snapshot":
+			// a backup or snapshot reorganises files (checkpoint) but never changes the logical contents
+			if !c17Eq(o.before, o.after) {
+				v = verdict{fmt.Sprintf("%s (err=%v) changed the database: %v -> %v", what, o.callErr, o.before, o.after), "C17:" + st.Op + "-changed-database"}
 			}
 		}
+		// a database changes only through the log
+		if !c17Eq(o.before, o.after) && !o.appended && (st.Op == "query" || st.Op == "request" || st.Op == "execute") {
+			v = verdict{fmt.Sprintf("%s changed the database without a log entry: %v -> %v; texts %v", what, o.before, o.after, vJSON(req.Statements)), "C17:changed-without-log-entry"}
+		}
+		// the guard of the read-only pool survives every operation
+		contentV := v
+		lostNow := !o.poolOK && poolWasOK
+		poolWasOK = o.poolOK
+		if lostNow {
+			v = verdict{fmt.Sprintf("%s (err=%v) left the read-only pool unprotected: %s", what, o.callErr, o.poolDetail), "C17:ro-pool-query-only-lost:" + st.Op}
+		}
+		if v.sig != "" {
+			verdicts = append(verdicts, v)
+		}
+		if contentV.sig != "" && contentV.sig != v.sig {
+			verdicts = append(verdicts, contentV)
+		}
 	}
-	// a database changes only through the log: checked last so that it wins over the endpoint-specific verdicts
-	if changed && !appended && (in.Endpoint == "query" || in.Endpoint == "request" || in.Endpoint == "execute") {
-		c.OracleFail = fmt.Sprintf("%s level %q changed the database without a log entry: %v -> %v (data_version %d -> %d); texts %v", in.Endpoint, in.Level, before, after, dv0, dv1, vJSON(req.Statements))
-		c.Sig = "C17:changed-without-log-entry"
+	c.Coq = fmt.Sprintf("({| k_init := %s; k_steps := %s |})%%N", c17CoqTable(start), coqList(stepsCoq))
+	for t := range tags {
+		c.Tags = append(c.Tags, t)
+	}
+	sort.Strings(c.Tags)
+	// report the first failure that is not the known finding, else the known one
+	for _, v := range verdicts {
+		if v.sig != "C17:unified-ro-head-rw-tail" {
+			c.OracleFail, c.Sig = v.fail, v.sig
+			break
+		}
+	}
+	if c.OracleFail == "" && len(verdicts) > 0 {
+		c.OracleFail, c.Sig = verdicts[0].fail, verdicts[0].sig
 	}
 	w.Emit(c)
+	// further kinds of failure in the same history are reported as cases of their own (same input)
+	seenSig := map[string]bool{c.Sig: true, "C17:unified-ro-head-rw-tail": true}
+	for _, v := range verdicts {
+		if !seenSig[v.sig] {
+			seenSig[v.sig] = true
+			w.Emit(VCase{Input: in, Key: key + "#" + v.sig, OracleFail: v.fail, Sig: v.sig})
+		}
+	}
+	// leave a protected pool for the next case if this history damaged it
+	if ok, _ := e.poolQueryOnly(); !ok && startOK {
+		e.restorePool()
+	}
 }
 
 // ---- generator ----
@@ -606,23 +830,154 @@ var c17Endpoints = []struct{ ep, lv string }{
 	{"execute", ""},
 }
 
-func c17Corpus() [][]c17Text {
+var c17Levels = []string{"none", "weak", "linearizable", "strong", "auto"}
+
+// texts the breaking-PRAGMA guard must refuse (C15); sent to a Store endpoint, the pool must stay protected
+var c17BreakingPragmas = []string{
+	"PRAGMA query_only=0", "pragma query_only = off", "PRAGMA main.query_only(0)", "SELECT 1; PRAGMA query_only=0",
+	"/* c */ PRAGMA query_only=false", "PRAGMA \"query_only\"=0", "PRAGMA journal_mode=DELETE", "PRAGMA wal_autocheckpoint=1000",
+	"PRAGMA synchronous=FULL; SELECT 1", "EXPLAIN PRAGMA query_only=0", "PRAGMA wal_checkpoint(TRUNCATE)",
+}
+
+func c17GenRequestTexts(rng *rand.Rand) []c17Text {
+	var texts []c17Text
+	for j, m := 0, 1+rng.Intn(3); j < m; j++ {
+		texts = append(texts, c17GenText(rng))
+	}
+	// ATTACH ':memory:' changes connection-local state and a second ATTACH on the same connection fails: keep it
+	// to the last statement of a text (so that a failure cannot cut other statements off), once per request
+	seenAttach := false
+	for ti := range texts {
+		for si := range texts[ti].Subs {
+			if strings.HasPrefix(texts[ti].Subs[si].SQL, "ATTACH") {
+				if seenAttach || si != len(texts[ti].Subs)-1 {
+					texts[ti].Subs[si] = c17Sub{SQL: "SELECT 3", RO: true}
+				} else {
+					seenAttach = true
+				}
+			}
+		}
+	}
+	return texts
+}
+
+func c17GenBackup(rng *rand.Rand) *c17Backup {
+	b := &c17Backup{Format: []string{"binary", "binary", "sql", "delete"}[rng.Intn(4)], Vacuum: rng.Intn(2) == 0, Compress: rng.Intn(3) == 0}
+	b.Dest = []string{"file", "prefilled", "prefilled", "buffer", "failwriter", "deadwriter"}[rng.Intn(6)]
+	return b
+}
+
+// reads that try to write through a second name for the node's own file, its schema, or the temp schema
+func c17GenAttachSelf(rng *rand.Rand) []c17Text {
+	k, v := int64(1+rng.Intn(6)), int64(10+rng.Intn(90))
+	alias := fmt.Sprintf("x%d", rng.Intn(4))
+	attach := c17Text{Raw: "ATTACH DATABASE '$DB' AS " + alias, RawRO: true}
+	if rng.Intn(4) == 0 {
+		attach.Raw = "ATTACH DATABASE 'file:$DB?mode=rwc' AS " + alias
+	}
+	var second c17Text
+	switch rng.Intn(5) {
+	case 0, 1:
+		second = c17Text{Raw: fmt.Sprintf("INSERT OR REPLACE INTO %s.t(id,v) VALUES(%d,%d)", alias, k, v), RawOps: []c17Op{{K: k, V: v}}}
+	case 2:
+		second = c17Text{Raw: fmt.Sprintf("DELETE FROM %s.t WHERE id = %d", alias, k), RawOps: []c17Op{{K: k, Del: true}}}
+	case 3:
+		second = c17Text{Raw: fmt.Sprintf("CREATE TABLE IF NOT EXISTS %s.u1(a)", alias), RawOps: []c17Op{{K: 9001, V: 1}}}
+	default:
+		second = c17Text{Raw: fmt.Sprintf("PRAGMA %s.user_version = %d", alias, k), RawOps: []c17Op{{K: 8000, V: k}}}
+	}
+	texts := []c17Text{attach, second}
+	if rng.Intn(3) == 0 {
+		texts = append(texts, c17Text{Raw: "CREATE TEMP TABLE IF NOT EXISTS c17tmp(a)"}, c17Text{Raw: "INSERT INTO temp.c17tmp VALUES(1)"})
+	}
+	// pooled connections live on: detach again (SQLite allows 10 attached databases per connection)
+	return append(texts, c17Text{Raw: "DETACH DATABASE " + alias, RawRO: true})
+}
+
+func c17GenStep(rng *rand.Rand) c17Step {
+	switch p := rng.Intn(100); {
+	case p < 52:
+		ep := c17Endpoints[rng.Intn(len(c17Endpoints))]
+		return c17Step{Op: ep.ep, Level: ep.lv, Fresh: ep.lv == "linearizable" && rng.Intn(2) == 0, Texts: c17GenRequestTexts(rng), Kind: "probe"}
+	case p < 66:
+		return c17Step{Op: "backup", Backup: c17GenBackup(rng)}
+	case p < 71:
+		return c17Step{Op: "snapshot"}
+	case p < 81:
+		st := c17Step{Op: []string{"query", "request", "execute"}[rng.Intn(3)], Kind: "breaking-pragma"}
+		if st.Op != "execute" {
+			st.Level = c17Levels[rng.Intn(len(c17Levels))]
+		}
+		st.Texts = []c17Text{{Raw: c17BreakingPragmas[rng.Intn(len(c17BreakingPragmas))], RawRO: true}}
+		if rng.Intn(2) == 0 {
+			st.Texts = append([]c17Text{{Raw: "SELECT 1", RawRO: true}}, st.Texts...)
+		}
+		return st
+	default:
+		st := c17Step{Op: "query", Level: c17Levels[rng.Intn(len(c17Levels))], Texts: c17GenAttachSelf(rng), Kind: "attach-self"}
+		if rng.Intn(6) == 0 {
+			st.Op, st.Level = "dbquery", ""
+		}
+		st.Fresh = st.Level == "linearizable" && rng.Intn(2) == 0
+		return st
+	}
+}
+
+func c17Corpus() []c17Input {
 	sel := c17Sub{SQL: "SELECT 1", RO: true}
 	del := c17Sub{SQL: "DELETE FROM t WHERE id = 1", Ops: []c17Op{{K: 1, Del: true}}}
 	put := c17Sub{SQL: "INSERT OR REPLACE INTO t(id,v) VALUES(5,55)", Ops: []c17Op{{K: 5, V: 55}}}
 	expl := c17Sub{SQL: "EXPLAIN SELECT 1", RO: true}
-	return [][]c17Text{
-		{{Subs: []c17Sub{sel, del}}},                                  // the known defect shape
-		{{Subs: []c17Sub{del, sel}}},                                  // write head: a write, and treated as one
-		{{Subs: []c17Sub{sel, del, sel}}},                             // only the last statement of a query text is stepped
-		{{Subs: []c17Sub{expl, del}, Explain: true}},                  // counted read-only because of SqlExplain
-		{{Subs: []c17Sub{sel}}, {Subs: []c17Sub{put}}},                // mixed request: goes through the log at every level
-		{{Subs: []c17Sub{sel, del}}, {Subs: []c17Sub{put}}},           // read-only head + write tail next to a real write
-		{{Subs: []c17Sub{{SQL: "ATTACH DATABASE ':memory:' AS m", RO: true}, {SQL: "CREATE TABLE IF NOT EXISTS u1(a)", Ops: []c17Op{{K: 9001, V: 1}}}}}},
+	reqs := [][]c17Text{
+		{{Subs: []c17Sub{sel, del}}},                        // the known defect shape
+		{{Subs: []c17Sub{del, sel}}},                        // write head: a write, and treated as one
+		{{Subs: []c17Sub{sel, del, sel}}},                   // only the last statement of a query text is stepped
+		{{Subs: []c17Sub{expl, del}, Explain: true}},        // counted read-only because of SqlExplain
+		{{Subs: []c17Sub{sel}}, {Subs: []c17Sub{put}}},      // mixed request: goes through the log at every level
+		{{Subs: []c17Sub{sel, del}}, {Subs: []c17Sub{put}}}, // read-only head + write tail next to a real write
 		{{Subs: []c17Sub{{SQL: "PRAGMA user_version", RO: true}, {SQL: "PRAGMA user_version = 3", Ops: []c17Op{{K: 8000, V: 3}}}}}},
 		{{Bad: true}, {Subs: []c17Sub{sel}}},
 		{{}, {Subs: []c17Sub{sel}}},
 	}
+	init := []c17Row{{1, 101}, {2, 102}, {3, 103}}
+	var out []c17Input
+	// every hand-picked request at every endpoint, one history per request
+	for _, texts := range reqs {
+		in := c17Input{Init: init}
+		for _, ep := range c17Endpoints {
+			in.Steps = append(in.Steps, c17Step{Op: ep.ep, Level: ep.lv, Texts: texts, Kind: "probe"})
+		}
+		out = append(out, in)
+	}
+	// after a FAILED backup of each kind (and a successful one, a snapshot, a refused PRAGMA): reads that try to write
+	// through another name for the node's own file, at every level
+	attachProbe := func(i int) []c17Text {
+		a := fmt.Sprintf("c%d", i)
+		return []c17Text{{Raw: "ATTACH DATABASE '$DB' AS " + a, RawRO: true},
+			{Raw: fmt.Sprintf("INSERT OR REPLACE INTO %s.t(id,v) VALUES(7,%d)", a, 70+i), RawOps: []c17Op{{K: 7, V: int64(70 + i)}}},
+			{Raw: "DETACH DATABASE " + a, RawRO: true}}
+	}
+	for _, b := range []c17Backup{
+		{Format: "binary", Vacuum: true, Dest: "prefilled"}, {Format: "binary", Vacuum: true, Compress: true, Dest: "failwriter"},
+		{Format: "delete", Vacuum: true, Dest: "failwriter"}, {Format: "delete", Dest: "prefilled"}, {Format: "sql", Dest: "failwriter"},
+		{Format: "binary", Dest: "failwriter"}, {Format: "sql", Dest: "deadwriter"}, {Format: "delete", Dest: "deadwriter"}, {Format: "sql", Vacuum: true, Dest: "buffer"}, {Format: "binary", Vacuum: true, Dest: "file"},
+	} {
+		b := b
+		in := c17Input{Init: init, Steps: []c17Step{
+			{Op: "execute", Texts: []c17Text{{Subs: []c17Sub{put}}}, Kind: "probe"},
+			{Op: "backup", Backup: &b},
+		}}
+		for i, lv := range c17Levels {
+			in.Steps = append(in.Steps, c17Step{Op: "query", Level: lv, Texts: attachProbe(i), Kind: "attach-self"})
+		}
+		in.Steps = append(in.Steps,
+			c17Step{Op: "snapshot"},
+			c17Step{Op: "query", Level: "none", Texts: []c17Text{{Raw: "PRAGMA query_only=0", RawRO: true}}, Kind: "breaking-pragma"},
+			c17Step{Op: "dbquery", Texts: attachProbe(9), Kind: "attach-self"},
+			c17Step{Op: "request", Level: "none", Texts: []c17Text{{Subs: []c17Sub{sel}}}, Kind: "probe"})
+		out = append(out, in)
+	}
+	return out
 }
 
 func TestVerif_C17(t *testing.T) {
@@ -638,34 +993,16 @@ func TestVerif_C17(t *testing.T) {
 		c17Run(w, e, in)
 		return
 	}
-	init := []c17Row{{1, 101}, {2, 102}, {3, 103}}
-	for _, texts := range c17Corpus() {
-		for _, ep := range c17Endpoints {
-			c17Run(w, e, c17Input{Endpoint: ep.ep, Level: ep.lv, Init: init, Texts: texts})
-		}
+	for _, in := range c17Corpus() {
+		c17Run(w, e, in)
 	}
 	rng := vRand()
-	n := vN(70, 1000)
+	n := vN(110, 2500)
 	for i := 0; i < n; i++ {
-		var texts []c17Text
-		for j, m := 0, 1+rng.Intn(3); j < m; j++ {
-			texts = append(texts, c17GenText(rng))
+		in := c17Input{Init: c17GenInit(rng)}
+		for j, m := 0, 5+rng.Intn(8); j < m; j++ {
+			in.Steps = append(in.Steps, c17GenStep(rng))
 		}
-		// ATTACH changes connection-local state: at most one per request (a second one fails on the same connection)
-		seenAttach := false
-		for ti := range texts {
-			for si := range texts[ti].Subs {
-				if strings.HasPrefix(texts[ti].Subs[si].SQL, "ATTACH") {
-					if seenAttach {
-						texts[ti].Subs[si] = c17Sub{SQL: "SELECT 3", RO: true}
-					}
-					seenAttach = true
-				}
-			}
-		}
-		init := c17GenInit(rng)
-		for _, ep := range c17Endpoints {
-			c17Run(w, e, c17Input{Endpoint: ep.ep, Level: ep.lv, Fresh: ep.lv == "linearizable" && rng.Intn(2) == 0, Init: init, Texts: texts})
-		}
+		c17Run(w, e, in)
 	}
 }
